@@ -12,8 +12,10 @@ import (
 	"fmt"
 	"math"
 	"net"
+	"os"
 	"strings"
 	"testing"
+	"time"
 
 	"github.com/EdgeCast/vflow/ipfix"
 	netflow5 "github.com/EdgeCast/vflow/netflow/v5"
@@ -290,6 +292,13 @@ func runC19(c c19Case) (v verdict, sig string, err error) {
 			}
 		case "len", "count":
 			// checked below for every step
+		case "wait":
+			// time passes (N milliseconds): a reader is a view of a buffer, its accounting does not know time
+			if op.N < 0 || op.N > 5000 {
+				return v, "", fmt.Errorf("bad case: wait")
+			}
+			time.Sleep(time.Duration(op.N) * time.Millisecond)
+			v.label(true, "time-passes-between-operations")
 		default:
 			return v, "", fmt.Errorf("bad case: op %q", op.Op)
 		}
@@ -348,6 +357,37 @@ func TestC19(t *testing.T) {
 		v, sig, err := runC19(c)
 		col.report(t, mustJSON(c), v, sig, err)
 	})
+}
+
+// TestC19Aged: a few sequences per shard in which time passes (20 ms .. 2.1 s) between operations.
+func TestC19Aged(t *testing.T) {
+	col := getCollector("C19", c19Rule)
+	if !strings.Contains(col.Rule, "aged stage") {
+		col.Rule += " | aged stage (a few sequences per shard): the same sequences with 1..2 waits of 20 ms .. 2.1 s between operations; all invariants unchanged"
+	}
+	n := 3
+	if os.Getenv("VERIF_TIER") == "thorough" {
+		n = 30
+	}
+	seed := e2eSeed()
+	gen := rapid.Custom(func(t *rapid.T) c19Case {
+		c := genC19(t)
+		for k, nw := 0, rapid.IntRange(1, 2).Draw(t, "nwaits"); k < nw; k++ {
+			at := rapid.IntRange(0, len(c.Ops)).Draw(t, "waitat")
+			w := c19Op{Op: "wait", N: rapid.SampledFrom([]int{20, 200, 1100, 1300, 2100}).Draw(t, "waitms")}
+			c.Ops = append(c.Ops[:at], append([]c19Op{w}, c.Ops[at:]...)...)
+		}
+		return c
+	})
+	for i := 0; i < n; i++ {
+		c := gen.Example(seed*100 + 80 + i)
+		v, sig, err := runC19(c)
+		col.report(t, mustJSON(c), v, sig, err)
+		col.addExtra("aged_sequences", 1)
+		if err != nil {
+			return
+		}
+	}
 }
 
 func init() {
